@@ -315,6 +315,8 @@ func Execute(t *testing.T, cfg *RunConfig) *Outcome {
 				chanded = valueSource{dev: csrc, tags: []string{"rng1"}}
 			case "seeker":
 				chanded = seekableSim{dev: csrc}
+			case "locker":
+				chanded = &lockerSource{dev: csrc}
 			}
 			go simrt.RunTask(ct, func() { callWorkflow(wf, chanded, nb) })
 		}
